@@ -1102,7 +1102,11 @@ impl<'a, 'b> Gen<'a, 'b> {
         self.sym(";");
         // classification: syntactically a module, interface or program instantiation are the same
         // sentence; with >= 2 ordered terminals and no named parameters it is also a UDP instantiation.
-        let kinds: Vec<&'static str> = if all_named_ports || named {
+        let target_is_generated_module = self.modules.contains(&target);
+        let kinds: Vec<&'static str> = if target_is_generated_module {
+            // the instantiated name is a module declared in this very source: the construct is a module instantiation
+            vec!["ModuleInstantiation"]
+        } else if all_named_ports || named {
             vec!["ModuleInstantiation", "InterfaceInstantiation", "ProgramInstantiation", "CheckerInstantiation"]
         } else {
             vec!["ModuleInstantiation", "InterfaceInstantiation", "ProgramInstantiation", "CheckerInstantiation", "UdpInstantiation"]
